@@ -50,10 +50,10 @@ def configs(tier):
                 if (n, loops) != (3, 1):
                     out.append((cfg_of(n, loops, False, 100, "E0", "full"), 0))
         out.append((cfg_of(2, 2, 1, "DYN", "Arel", "full"), 0))            # cache=n-1: disabled
-        out.append((cfg_of(2, 2, True, 100, "E0", "small"), 0))
         out.append((cfg_of(2, -1, 2, "DYN", "E0", "dur"), 0))              # cache=n: enabled
-        out.append((cfg_of(3, 2, True, 100, "E0", "tiny"), 0))
-        out.append((cfg_of(3, -1, 3, 100, "E0", "dur"), 0))
+        out.append((cfg_of(2, 2, 3, 100, "E0", "size"), 0))
+        out.append((cfg_of(3, 2, True, 100, "E0", "one"), 0))
+        out.append((cfg_of(3, -1, 3, "DYN", "E0", "one"), 0))
         out.append((cfg_of("I3", 1, False, 100, "E0", "small"), 0))
         out.append((cfg_of("I3", 2, True, "DYN", "Arel", "small"), 0))     # loops / cache ignored
         out.append((cfg_of("I4", 1, False, 100, "E0", "tiny"), 0))
